@@ -388,3 +388,33 @@ func first(a, _ []byte) []byte { return a }
 //@     invariant forall(x, 0, 256, implies(x < i && n256.children[x].pointer != nil, n48.children[cntP(n256.children, x)].pointer == n256.children[x].pointer && n48.children[cntP(n256.children, x)].tag == n256.children[x].tag))
 //@     invariant forall(j, 0, 10, n48.prefix[j] == n256.prefix[j])
 //@     decreases 256 - i
+
+//@ func (*node48).deleteChild
+//@   requires n48 != nil && atype(n48) == typeid(node48) && Inv48(n48) && refIs(ref, n48, 2)
+//@   requires n48.keys[b] != 0
+//@   ensures[view] forallp(x, 0, 256, lookP(*ref, x) == ite(x == b, nil, old(lookP48(n48, x))) && lookT(*ref, x) == ite(x == b, 0, old(lookT48(n48, x))))
+//@   ensures[inv] typeOK(*ref) && InvRef(*ref)
+//@   ensures[hdr] hdrSame((*ref).pointer, n48)
+//@   ensures[replaced] (*ref).pointer == n48 || (fresh((*ref).pointer) && Zero48(n48))
+//@   ensures[frame] frame(n48, ref.obj, (*ref).pointer) && frameSlot(ref)
+//@   loop 1 (i)
+//@     modifies SP ST B
+//@     invariant 0 <= i && i <= 256 && 0 <= children && children == cntNZ(n48.keys, i) && frame(ref.obj, n48) && frameSlot(ref)
+//@     invariant (*ref).pointer == n16 && (*ref).tag == 1
+//@     invariant forall(x, 0, 256, n48.keys[x] == ite(x == b, 0, old(n48.keys[x])))
+//@     invariant forall(j, 0, 48, n48.children[j].pointer == ite(j == old(n48.keys[b]) - 1, nil, old(n48.children[j].pointer)) && n48.children[j].tag == old(n48.children[j].tag))
+//@     invariant n48.prefixLen == old(n48.prefixLen) && forall(j, 0, 10, n48.prefix[j] == old(n48.prefix[j]) && n16.prefix[j] == n48.prefix[j])
+//@     invariant n48.childrenLen == cntNZ(n48.keys, 256) && n48.childrenLen <= 16 && n16.childrenLen == n48.childrenLen && n16.prefixLen == n48.prefixLen
+//@     invariant forall(x, 0, 256, n48.keys[x] <= 48 && implies(n48.keys[x] != 0, n48.children[n48.keys[x]-1].pointer != nil))
+//@     invariant forall(j, 0, 16, implies(j < children, n16.keys[j] < i && n48.keys[n16.keys[j]] != 0 && cntNZ(n48.keys, n16.keys[j]) == j && n16.children[j].pointer == n48.children[n48.keys[n16.keys[j]]-1].pointer && n16.children[j].tag == n48.children[n48.keys[n16.keys[j]]-1].tag))
+//@     invariant forall(x, 0, 256, implies(x < i && n48.keys[x] != 0, n16.keys[cntNZ(n48.keys, x)] == x))
+//@     decreases 256 - i
+
+//@ func (*node16).deleteChild
+//@   requires n16 != nil && atype(n16) == typeid(node16) && Inv16(n16) && refIs(ref, n16, 1)
+//@   requires lookP16(n16, b) != nil
+//@   ensures[view] forallp(x, 0, 256, lookP(*ref, x) == ite(x == b, nil, old(lookP16(n16, x))) && lookT(*ref, x) == ite(x == b, 0, old(lookT16(n16, x))))
+//@   ensures[inv] typeOK(*ref) && InvRef(*ref)
+//@   ensures[hdr] hdrSame((*ref).pointer, n16)
+//@   ensures[replaced] (*ref).pointer == n16 || (fresh((*ref).pointer) && Zero16(n16))
+//@   ensures[frame] frame(n16, ref.obj, (*ref).pointer) && frameSlot(ref)
